@@ -202,6 +202,8 @@ def gen_schema(r, size=None, features=1.0):
         n = 1 if r.random() < 0.75 else min(2, len(t1['columns']), len(t2['columns']))
         c1 = [c['name'] for c in r.sample(t1['columns'], n)]
         c2 = [c['name'] for c in r.sample(t2['columns'], n)]
+        if n == 2 and r.random() < 0.2:
+            c2 = c2[:1]            # sides of different length: nothing in the grammar or the classes forbids it
         form = r.choice(['short', 'long', 'inline']) if n == 1 else r.choice(['short', 'long'])
         ref = {'kind': r.choice(['>', '<', '-', '<>']), 't1': (t1['schema'], t1['name']), 'cols1': c1,
                't2': (t2['schema'], t2['name']), 'cols2': c2, 'form': form,
@@ -507,7 +509,9 @@ def render_doc(A, st, allow_props=False, interleave=True):
         if x['form'] == 'short':
             txt += st.kw('ref') + nm + ':' + st.ws() + body + '\n'
         else:
-            txt += st.kw('ref') + nm + st.ws() + '{' + st.nl() + '  ' + body + st.nl() + '}\n'
+            # a remark inside the block, above the relation, belongs to nothing: it is dropped
+            inner = ('  // inner remark' + st.nl()) if st.coin(0.5) else ''
+            txt += st.kw('ref') + nm + st.ws() + '{' + st.nl() + inner + '  ' + body + st.nl() + '}\n'
         chunks.append(('ref', txt, {'kind': x['kind'], 't1': x['t1'], 'cols1': x['cols1'], 't2': x['t2'], 'cols2': x['cols2'],
                                     'inline': False, 'name': x['name'], 'on_update': x['on_update'], 'on_delete': x['on_delete'],
                                     'comment': com}))
